@@ -36,6 +36,7 @@ VF.GHOST_SCHEMA.update({
     "last_nargs": INT_,     # len(exc.args) for 2/3
     "last_arg0": STR_,      # exc.args[0] for 2/3 when present
     "last_resp": BYTES_,
+    "last_ans": BYTES_,     # what was appended to resps by the last exchange
     "conn": INT_,           # number of getDongle() calls (connections opened)
     "disc": INT_,           # number of dongle.close() calls
 })
@@ -101,6 +102,11 @@ def no_answer(resps0):
     return Sym(("list", "bytes"), tm.Concat(resps0, tm.SeqUnit(tm.SeqEmpty(BYTES))))
 
 
+def _set_noans(s, resps0):
+    s.ghost["resps"] = no_answer(resps0)
+    s.ghost["last_ans"] = b""
+
+
 @LM.opaque_method("dongle", "exchange")
 def exchange(ip, st, recv, args, kwargs):
     apdu = args[0]
@@ -118,7 +124,8 @@ def exchange(ip, st, recv, args, kwargs):
     s.assume(tm.And(tm.Le(tm.Int(0), sw), tm.Le(sw, tm.Int(0xFFFF))))
     e = I.make_exc(s, CommException, Sym("str", msg), Sym("int", sw))
     s.fields(e, True).update({"message": Sym("str", msg), "sw": Sym("int", sw), "data": None})
-    s.ghost.update(last_exc=1, last_sw=Sym("int", sw), last_msg=Sym("str", msg), resps=no_answer(resps0))
+    s.ghost.update(last_exc=1, last_sw=Sym("int", sw), last_msg=Sym("str", msg))
+    _set_noans(s, resps0)
     outs.append((s, Raise(e)))
     # 2./3. the two exact link errors and their look-alikes: BaseException / OSError with 0,1,2 args
     for code, cname in ((2, "BaseException"), (3, "OSError")):
@@ -126,19 +133,21 @@ def exchange(ip, st, recv, args, kwargs):
             s = st.fork()
             a = [Sym("str", tm.Fresh("exc.arg%d" % k, STR)) for k in range(nargs)]
             e = I.make_exc(s, cname, *a)
-            s.ghost.update(last_exc=code, last_nargs=nargs, resps=no_answer(resps0))
+            s.ghost.update(last_exc=code, last_nargs=nargs)
+            _set_noans(s, resps0)
             if nargs:
                 s.ghost["last_arg0"] = a[0]
             outs.append((s, Raise(e)))
     # 4. any other exception class
     s = st.fork()
     e = I.make_exc(s, OtherDeviceError, Sym("str", tm.Fresh("exc.arg0", STR)))
-    s.ghost.update(last_exc=4, resps=no_answer(resps0))
+    s.ghost.update(last_exc=4)
+    _set_noans(s, resps0)
     outs.append((s, Raise(e)))
     # 5. an answer, under A-DEV-WF
     resp = tm.Fresh("resp", BYTES)
     st.assume(devwf(at, resp))
-    st.ghost.update(last_exc=0, last_resp=Sym("bytes", resp),
+    st.ghost.update(last_exc=0, last_resp=Sym("bytes", resp), last_ans=Sym("bytes", resp),
                     resps=Sym(("list", "bytes"), tm.Concat(resps0, tm.SeqUnit(resp))))
     outs.append((st, Sym("bytes", resp)))
     for o in outs:
@@ -200,7 +209,7 @@ def ghost_step(ip, st, g, og, apdu):
     for k in ("nx", "log", "stream", "cnt", "last_cmd", "last_op", "conn", "disc"):
         conj.append(tm.Eq(to_term(g.attrs[k]), to_term(tmp.ghost[k])))
     r0, r1 = to_term(og.attrs["resps"]), to_term(g.attrs["resps"])
-    last = tm.Nth(r1, tm.Len(r0))
+    last = to_term(g.attrs["last_ans"])
     conj.append(tm.Eq(r1, tm.Concat(r0, tm.SeqUnit(last))))
     # the recorded answer is the returned one when there was an answer, empty otherwise
     conj.append(tm.Eq(last, tm.Ite(tm.Eq(to_term(g.attrs["last_exc"]), tm.Int(0)),
